@@ -205,6 +205,9 @@ def fresh_of_type(st, name, ty, inputs=None):
         v = SFunc(target=t[1], name=name)
     elif k == "obj":
         v = SObj(name)
+    elif k == "opaque":
+        from .glue import Op
+        v = Op(name, "param")
     elif k == "dict":
         v = {kk: fresh_of_type(st, "%s[%s]" % (name, kk), vv, None) for kk, vv in t[1].items()}
         if inputs is not None:
